@@ -9,7 +9,14 @@ import Blue.Generated.Consts
       the check routes partial batches to known finding D-6);
     * in the first case `visible_seq_no` is advanced to the writer's own sequence number where the
       writer, head of the wait list and holding the state mutex, is about to unlink (`wFin`).
-    Any other expression makes this theorem, and with it the proof signal of C06, fail.
+    * a write that FAILS after it has been linked (`wFail`) leaves the wait list through one of
+      the two exits the model covers, neither of which publishes anything: the early return that
+      drops the guard wherever it stands (`?` on the fallible calls; the store as found —
+      `Blue.KvsWake.successor_sleeps_as_found`, `Blue.WaitList.ring_fills_behind_one_guard`), or
+      the common exit in its turn with `visible_seq_no` assigned only `if res.is_ok()` (repaired).
+      A write whose error path publishes, or that skips the wait for its turn inside the common
+      exit, matches neither (`Blue.KvsConc.failed_write_publishes_tears_batch`).
+    Any other expression makes these theorems, and with them the proof signal of C06, fail.
     `kvs_read_repaired` says which of the two the tree under test has (it is the harness's probe
     that decides which policy the driver replays with; the two are reported side by side). -/
 namespace Blue.ConstsTie
@@ -18,6 +25,14 @@ theorem kvs_read_policy :
     (Blue.Generated.kvsReadTimestamp = "visible_seq_no" ∧ Blue.Generated.kvsVisibleAdvance = "at-wait-list-head")
     ∨ (Blue.Generated.kvsReadTimestamp = "seq_no" ∧ Blue.Generated.kvsVisibleAdvance = "absent") := by
   decide
+
+theorem kvs_failed_write_exit :
+    Blue.Generated.kvsFailedWriteExit = "in-turn-no-publish"
+    ∨ Blue.Generated.kvsFailedWriteExit = "early-return-drops-guard" := by
+  decide
+
+/-- does a failed write of the tree under test leave the wait list in its turn, waking the new head? -/
+def kvsFailedWriteRepaired : Bool := Blue.Generated.kvsFailedWriteExit == "in-turn-no-publish"
 
 /-- does the tree under test read at the last completed sequence number? -/
 def kvsReadRepaired : Bool := Blue.Generated.kvsReadTimestamp == "visible_seq_no"
